@@ -60,19 +60,19 @@ theorem decArr_allNil (d : Schema → Item → Option Value) : ∀ fs vs pos, al
 theorem encArr_good {e : Schema → Value → Option Item} {d : Schema → Item → Option Value}
     {K : Schema → List Ty} {nr : Schema → Prop} :
     ∀ (fs : List (Nat × Schema)), (∀ p, p ∈ fs → Good (e p.2) (d p.2) (K p.2) (nr p.2)) →
-    ∀ pos vs items, pos ≤ 2 ^ 63 → increasingFrom pos fs = true → rawFreeList vs = true →
-      encArr e pos fs vs = some items →
+    ∀ (trunc : Bool) pos vs items, pos ≤ 2 ^ 63 → increasingFrom pos fs = true → rawFreeList vs = true →
+      encArr e trunc pos fs vs = some items →
       wfList items = true ∧ pos + items.length ≤ 2 ^ 63 ∧
       ∃ vs', decArr d pos fs items = some vs' ∧ stripList vs' = vs ∧ ((∀ p, p ∈ fs → nr p.2) → vs' = vs) := by
   intro fs
   induction fs with
   | nil =>
-    intro _ pos vs items hp _ _ he
+    intro _ trunc pos vs items hp _ _ he
     cases vs with
     | nil => simp [encArr] at he; subst he; exact ⟨rfl, by simpa using hp, [], rfl, rfl, fun _ => rfl⟩
     | cons _ _ => simp [encArr] at he
   | cons p fs ih =>
-    intro hg pos vs items hp hi hr he
+    intro hg trunc pos vs items hp hi hr he
     obtain ⟨idx, s⟩ := p
     cases vs with
     | nil => simp [encArr] at he
@@ -81,8 +81,9 @@ theorem encArr_good {e : Schema → Value → Option Item} {d : Schema → Item 
       split at he
       · -- nothing but nil fields left
         rename_i hn
+        simp only [Bool.and_eq_true] at hn
         simp only [Option.some.injEq] at he; subst he
-        obtain ⟨d1, s1⟩ := decArr_allNil d _ _ pos hn
+        obtain ⟨d1, s1⟩ := decArr_allNil d _ _ pos hn.2
         exact ⟨rfl, by simpa using hp, v :: vs, d1, s1, fun _ => rfl⟩
       · split at he
         · simp at he
@@ -93,12 +94,12 @@ theorem encArr_good {e : Schema → Value → Option Item} {d : Schema → Item 
           cases ha : e s v with
           | none => simp [ha] at he
           | some it =>
-            cases hb : encArr e (idx + 1) fs vs with
+            cases hb : encArr e trunc (idx + 1) fs vs with
             | none => simp [ha, hb] at he
             | some rest =>
               simp [ha, hb] at he; subst he
               obtain ⟨w1, _, v', d1, s1, n1⟩ := hg (idx, s) (by simp) v it hr.1 ha
-              obtain ⟨w2, l2, vs', d2, s2, n2⟩ := ih (fun q hq => hg q (by simp [hq])) (idx + 1) vs rest (by omega) h3 hr.2 hb
+              obtain ⟨w2, l2, vs', d2, s2, n2⟩ := ih (fun q hq => hg q (by simp [hq])) trunc (idx + 1) vs rest (by omega) h3 hr.2 hb
               refine ⟨by simp [wfList_append, wfList_replicate_null, wfList, w1, w2], by simp; omega, v' :: vs', ?_,
                 by simp [stripList, s1, s2], ?_⟩
               · simp only [decArr, drop_replicate_append]
@@ -333,7 +334,7 @@ theorem good_struct {e : Schema → Value → Option Item} {d : Schema → Item 
     | array =>
       simp only [Option.map_eq_some_iff] at he
       obtain ⟨xs, hx, rfl⟩ := he
-      obtain ⟨w, hl, vs', dd, ss, nn⟩ := encArr_good fs hg 0 vs xs (by omega) hi hr hx
+      obtain ⟨w, hl, vs', dd, ss, nn⟩ := encArr_good fs hg true 0 vs xs (by omega) hi hr hx
       have hw := mkArray_wf xs (by omega) w
       refine ⟨wrapTag_wf t _ ht hw, wrapTag_typeOf .array t _ (mkArray_typeOf xs), .list vs', ?_,
         by simp [Value.strip, ss], fun x => by rw [nn x]⟩
